@@ -63,6 +63,7 @@ func (check) Assumptions() []string {
 		"a namespace captured as *ucfg.Config keeps its place: whatever sequence of Unpack calls filled the field (view, private merged copy), errors read from it name the full dotted path from the root of the configuration the setting was loaded with; where nothing exists at the faulty setting any source of the two configurations is accepted (the captured namespace is merged from both)",
 		"single fault only: all other settings conform to the type, so which of several guilty settings is named cannot arise; keys never contain '.', '/', ':', quotes or '$', and are never numeric (the tag of a dotted field is two such keys joined by the case's separator)",
 		"load-time failures (broken expression syntax, unsupported Go value, a key spelled twice) are failures caused by one setting of the input and are judged like the others although the statement's list of fault kinds does not name them: a partial path ('1' for 'a.1', 'a.b' for 'x.a.b') looks like a full one and names a different place; for the duplicate either spelling is accepted",
+		"load-time faults are also driven with the LOAD call's separator drawn from a pool (/ :: : | -> ~ and .) and the way to the fault spelled with keys joined by it (runs of 2-3 dictionary keys, the tree below 0-2 extra dictionaries, the rest of the dictionaries in between nested next to the joined key; fault kinds broken expression, unsupported value, non-string map key, duplicate key): the setting has one dotted path however the input spelled the way to it, so the message must spell it with dots and completely; here the load separator does not delimit a path token ('k/zz' does not name 'k'). Signatures error-lacks-path:load-time:<kind>:<joined|nested>-keys:<path-spelled-with-load-separator|front-of-path-dropped|names-no-setting>, error-lacks-source:load-time:<kind>:<joined|nested>-keys, panic:<entry>:input-with-joined-keys",
 		"outside / not generated: panics of unsupported inputs (C07), uintptr targets (not a supported target kind: a string into uintptr is refused as unsupported), invalid defaults pre-filled in the TARGET (pointers, untouched slice elements: not settings of the configuration), the filler elements of a list gap (never loaded, so no source to report; C18 tracks it), errors of RegisterValidator, of the YAML/JSON/HJSON decoders, the OS and the flag value syntax (not calls on a configuration / front-end syntax), a reference to a LIST where an array of another length or a validated list is expected (length and validator belong to both settings), the wording of messages (\"required 'object', but found 'object'\"), list-for-object and object-for-slice (documented as no failures)",
 		"target types never put pointers inside slices or maps, never point to maps, slices or arrays, use arrays only as struct fields and *regexp.Regexp only as a struct field (other shapes are C06/C07 findings)",
 		"a list where an object is expected is not clearly an error by the documentation (a list is a Config object): if Unpack accepts it this is only counted; if it fails the error must name the setting or one below it",
@@ -130,6 +131,11 @@ func (check) Run(seed int64, tier string, idx int, verbose bool) harness.Result 
 		}
 		if panicked, pv, where := harness.Safe(cs.loadTimeFaults); panicked {
 			res.Violate("panic:load-time-faults", "panic %q at %s", clip(pv, 300), where)
+		}
+		// own random stream: the draws of the other probes stay what they were
+		jr := rand.New(rand.NewSource(harness.Mix(seed, "C14joined", idx)))
+		if panicked, pv, where := harness.Safe(func() { cs.joinedLoadFaults(jr) }); panicked {
+			res.Violate("panic:joined-load-faults", "panic %q at %s", clip(pv, 300), where)
 		}
 		if panicked, pv, where := harness.Safe(cs.setterIndexFaults); panicked {
 			res.Violate("panic:setter-index-faults", "panic %q at %s", clip(pv, 300), where)
